@@ -177,13 +177,16 @@ def run_case(case):
     before = snapshot(args, kw, G, res)
     simcase.seed_all(case['seed'])
     try:
-        with warnings.catch_warnings():
-            warnings.simplefilter('ignore')
+        with warnings.catch_warnings(record=True) as wl:
+            warnings.simplefilter('always')
             with np.errstate(all='ignore'):
                 out1 = f(*args, **kw)
     except Exception as e:
         viol(res, '%s|first_call|exception:%s' % (tag, simcase.exc_key(e)), {'err': repr(e)[:200]})
         return res
+    if any('ODEint' in str(w.category) or 'lsoda' in str(w.message).lower() for w in wl):
+        deterministic = False           # the solver gave up: its output buffer is not meaningful (and not reproducible)
+        bump(res, 'solver_failures_not_compared')
     bump(res, 'calls_snapshotted')
     after = snapshot(args, kw, G, {'counters': {}})
     changed = diff(before, after)
